@@ -250,7 +250,7 @@ def main(tier):
     nmuts.append(("no-yardl-key", with_header({"notyardl": h["yardl"]})))
     nmuts.append(("no-version", with_header({"yardl": {"schema": h["yardl"]["schema"]}})))
     nmuts.append(("no-schema", with_header({"yardl": {"version": 1}})))
-    for v in (0, 2, "1", None, 1.5):
+    for v in (0, 2, "1", None, 1.5, True, [1], {"v": 1}):
         nmuts.append(("version-%r" % (v,), with_header({"yardl": {"version": v, "schema": h["yardl"]["schema"]}})))
     nmuts.append(("schema-null", with_header({"yardl": {"version": 1, "schema": None}})))
     nmuts.append(("schema-string", with_header({"yardl": {"version": 1, "schema": "x"}})))
